@@ -112,6 +112,9 @@ def correspondence(ctx, violations, known_hits):
     }
 
 
+# what a re-check ends with: the success line, a rendered diagnostic, or a panic
+VERDICT_MARKS = ("no errors found", "\u00d7", "Error", "error", "panicked")
+
 STACK_SEQ = [
     "push r1\npop r2\nhalt\n",                                   # the extension's mnemonics: valid with -f stack only
     "lbl_a push r0\nlbl_b add r0\n",                             # fails after recording labels
@@ -160,12 +163,14 @@ def drive_watch(ctx, exe, srcs, model, violations, seq=None, feat=0):
                 with open(f, "w", encoding="utf-8") as fh:       # in place: the watcher follows the inode
                     fh.write(text)
                 stable = 0
-                for _ in range(40):
+                for _ in range(100):
                     time.sleep(0.1)
                     now = open(logf, "rb").read()[before:].decode(errors="replace")
-                    stable = stable + 1 if (now == got and "Re-checking" in now) else 0
+                    tail = now.split("Re-checking")[-1] if "Re-checking" in now else ""
+                    decided = any(mk in tail for mk in VERDICT_MARKS)
+                    stable = stable + 1 if (now == got and decided) else 0
                     got = now
-                    if stable >= 5:
+                    if stable >= 4 or ("Re-checking" not in now and _ >= 40):
                         break
                 if "Re-checking" in got:
                     break
@@ -179,8 +184,12 @@ def drive_watch(ctx, exe, srcs, model, violations, seq=None, feat=0):
                     break
                 unobserved += 1
                 continue
-            rechecks += 1
             last = got.split("Re-checking")[-1]
+            if not any(mk in last for mk in VERDICT_MARKS):
+                if p.poll() is None:              # announced, no verdict within 10 s, watcher alive: a slow machine, not a verdict
+                    unobserved += 1
+                    continue
+            rechecks += 1
             ok = "no errors found" in last
             if ok != (me == 0) or "panicked" in last:
                 bad += 1
